@@ -750,6 +750,15 @@ def work_rg(chunk_id, payload):
                                     for _ in range(F)] for a_ in range(ar * p)])
                 marg = "@a%d %d %d @m%d %d %d" % (i, ar, p, i, p, p)
             pv = "$p%d" % i
+            if flavour == "correlated" and rng.random() < 0.3:
+                # reached only as the correlate of another correlated
+                # parameter (which has no grid of its own): the chain's
+                # range is still that of the sigma grid
+                s.rvec("pw%d" % i, [0.05])
+                s.op("w%d=vnacal_make_correlated_parameter $vc $p%d NULL 1 "
+                     "@pw%d" % (i, i, i))
+                pv = "$w%d" % i
+                flavour = "correlated-chain"
             if flavour == "vector" and rng.random() < 0.3:
                 # an unknown whose initial guess is this vector: the solver
                 # evaluates the guess at every calibration frequency, so the
@@ -854,6 +863,9 @@ def work_rg(chunk_id, payload):
             if d["flavour"] == "correlated":
                 fn += "[correlated-sigma-grid]"
                 bump(part, "rg_correlated_sigma_decisions")
+            elif d["flavour"] == "correlated-chain":
+                fn += "[correlated-chain-sigma-grid]"
+                bump(part, "rg_correlated_chain_decisions")
             elif d["flavour"] == "unknown-with-vector-guess":
                 fn += "[unknown-with-vector-guess]"
                 bump(part, "rg_unknown_vector_guess_decisions")
@@ -876,7 +888,7 @@ def work_rg(chunk_id, payload):
                    "(%d points), order %s" % (
                        ctype, fmin, fmax, F,
                        "sigma frequency vector of a correlated parameter"
-                       if d["flavour"] == "correlated" else
+                       if d["flavour"].startswith("correlated") else
                        "vector parameter grid", d["lo"], d["hi"], d["n"],
                        order)
             if d["kind"] == "cover":
